@@ -109,6 +109,17 @@ theorem mkCell_exact (r : Region) (cell : List Rat) (k : Nat → Nat)
     simp [hn]
   rw [h3]
   simp only [Bool.not_true, Bool.false_eq_true, if_false]
+  have h3b : allLt r.ndim (fun a => decide (1 ≤ (roundHalfEven (r.edge a / cell.getD a 0)).toNat)) = true := by
+    rw [allLt_iff]; intro a ha
+    obtain ⟨hk0, hke⟩ := hk a ha
+    have hca := hc a ha
+    have : r.edge a / cell.getD a 0 = ((k a : Int) : Rat) := by
+      rw [hke]; field_simp; simp
+    rw [this, roundHalfEven_int']
+    simp only [Int.toNat_natCast, decide_eq_true_eq]
+    omega
+  rw [h3b]
+  simp only [Bool.not_true, Bool.false_eq_true, if_false]
   have hbc : bcOk r.dims ("" : String).toLower = true := by
     have : ("" : String).toLower = "" := by simp [String.toLower]
     rw [this]; simp [bcOk]
